@@ -1,5 +1,5 @@
 """Property -> rules table.  Rules are functions (ctx, repo)."""
-from .rules import ndim, iface, wrappers, rng, mech, errmodels, popmodels, switch, copies, cursors, reduced, layout, noise, filters, caches, problems, dosing, sbml, predictive
+from .rules import ndim, iface, wrappers, rng, mech, errmodels, popmodels, switch, copies, cursors, reduced, layout, noise, filters, caches, problems, dosing, sbml, predictive, inference
 
 PROPS = {}
 
@@ -354,6 +354,26 @@ prop('C16',
                  'callees, Generator seeds are never re-seeded or used in '
                  'arithmetic, generators are built per call from the seed, '
                  'and every stochastic callee receives a seed-derived value.')
+
+prop('C18',
+     [inference.r18_1, inference.r18_2, inference.r18_3, CUR_INIT,
+      iface.r02_6, layout.r02_4, layout.r13_1, rng.r16_1, rng.r16_5],
+     undecided=['xarray selection semantics', 'equality of dataset entries '
+                'with the raw chain'],
+     assumptions=COMMON_ASSUME,
+     technique='def-use rules on the initial-point assembly, order-'
+               'preservation provenance of the individual coordinate, '
+               'cursor discipline of the special-dimension removal, layout '
+               'of names and IDs, RNG provenance',
+     explanation='Decides that initial points take their population block '
+                 'from the prior and their individual block from the '
+                 'population model at the same point\'s population values '
+                 '(n_ids draws, same covariates, special dimensions removed '
+                 'through the interface with an advancing cursor), that the '
+                 'individual coordinate of the posterior dataset is the '
+                 'likelihood\'s unique IDs in their original order, that '
+                 'names and IDs have the parsed layout, and that parameter '
+                 'maps are applied as one simultaneous substitution.')
 
 prop('C19',
      [copies.r19_3, copies.r11_3, copies.r11_6, switch.r03_5, mech.r11_1,
